@@ -131,6 +131,16 @@ class Gen:
         return line
 
     # ---- whole histories -----------------------------------------------
+    def lying_hint(self, new, k):
+        """an iterator may lie in its size_hint: now and then the one handed to from_iter / join_all
+        claims exactly K elements (fewer, more, many more than the k it yields) instead of (0, Some(k))"""
+        r = self.r
+        if " lazy=1" in new and r.random() < 0.4:
+            K = r.choice([max(0, k - 1), k + 1, k + 7, 32, 33, 40, 64, 100, 4096])
+            new = new.replace(" lazy=1", " ihint=%d" % K)
+            self.stats["lying_iterators"] = self.stats.get("lying_iterators", 0) + 1
+        return new
+
     def history(self, name, typ):
         r, p = self.r, self.p
         L = ["hist " + name]
@@ -165,6 +175,7 @@ class Gen:
                 for _ in range(k):
                     inits.append("init %d %s" % (nid, self.child_script(typ)))
                     nid += 1
+                new = self.lying_hint(new, k)
         elif typ in JOINS:
             if r.random() < 0.5:
                 new += " lazy=1"
@@ -172,6 +183,7 @@ class Gen:
             for _ in range(k):
                 inits.append("init %d %s" % (nid, self.child_script(typ)))
                 nid += 1
+            new = self.lying_hint(new, k)
         else:
             n = r.choice([0, 1, 1, 2, 2, 3, 4]) if not big else r.choice([5, 61, 70])
             new += " n=%d" % n
@@ -590,7 +602,9 @@ def with_extend(lines, typ, r, stats):
             n = j - i
             if r.random() < 0.75:
                 k = n if r.random() < 0.7 else r.randrange(1, n + 1)
-                out.append("#!extend %d" % k)
+                # now and then the iterator panics once its elements are used up (the panic is caught):
+                # whatever `extend` has done by then must stand
+                out.append("#!extend%s %d" % ("p" if r.random() < 0.3 else "", k))
                 stats["extend_calls"] = stats.get("extend_calls", 0) + 1
                 stats["extend_elems"] = stats.get("extend_elems", 0) + k
             out += lines[i:j]
